@@ -39,7 +39,7 @@ def load_catalog():
             if os.path.exists(mp) and os.path.exists(pp):
                 with open(mp) as fh:
                     meta = json.load(fh)
-                props = sorted({meta["anchored_property"]} | set(meta.get("checks_firing", {})))
+                props = sorted(set(meta.get("props", [meta["anchored_property"]])) | set(meta.get("checks_firing", {})))
                 muts.append({"id": "R-" + d, "props": props, "what": "refactoring (no behaviour change): " + meta.get("what", ""), "expect": None, "patch": pp})
     return muts
 
